@@ -1,0 +1,18 @@
+//go:build verif
+
+package logger
+
+import "bytes"
+
+// Verification hooks (build tag verif): thin exported wrappers around unexported helpers so that the
+// correspondence harness in /verif can call the real code in-process. No behaviour is changed.
+
+// VerifAtoi renders i with the package's atoi.
+func VerifAtoi(i int64, pad int) string {
+	var b bytes.Buffer
+	atoi(&b, i, pad)
+	return b.String()
+}
+
+// VerifHostport exposes hostport.
+func VerifHostport(s string) (string, string) { return hostport(s) }
